@@ -464,3 +464,66 @@ Proof.
       destruct Hok as [[Hne _] _]. destruct (se_name e) as [|c0 nm] eqn:En; [congruence|]. rewrite Hs. reflexivity.
   - rewrite apreNL_tmap, HF, map_map. apply map_ext. intros [d e]. cbn [fst snd]. rewrite merge_elem_node. reflexivity.
 Qed.
+
+(* ================================================================ E. the preorder list determines the forest *)
+Lemma apreN_depths : forall n d, Forall (fun p => d <= fst p) (apreN d n).
+Proof.
+  apply (anode_ind' (fun n => forall d, Forall (fun p => d <= fst p) (apreN d n))).
+  intros nm v rp at_ ch sc HF d. cbn [apreN]. constructor; [cbn [fst]; lia|].
+  induction ch as [|k r IH]; [constructor|]. inversion HF as [|? ? Hk Hr]; subst.
+  cbn [flat_map]. apply Forall_app. split; [|apply IH; exact Hr].
+  eapply Forall_impl; [|apply (Hk (S d))]. cbn beta. intros p Hp. lia.
+Qed.
+
+Lemma apreNL_depths l d : Forall (fun p => d <= fst p) (apreNL d l).
+Proof.
+  induction l as [|n r IH]; [constructor|]. unfold apreNL in *. cbn [flat_map].
+  apply Forall_app. split; [apply apreN_depths|exact IH].
+Qed.
+
+Definition starts_le (d : nat) (m : list (nat * anode)) : Prop :=
+  match m with [] => True | p :: _ => fst p <= d end.
+
+Lemma apreNL_starts l d : starts_le d (apreNL d l).
+Proof. destruct l as [|[nm v rp at_ ch sc] r]; [exact I|]. cbn. lia. Qed.
+
+Lemma split_by_depth d : forall (l1 l2 m1 m2 : list (nat * anode)),
+  Forall (fun p => S d <= fst p) l1 -> Forall (fun p => S d <= fst p) l2 ->
+  starts_le d m1 -> starts_le d m2 -> l1 ++ m1 = l2 ++ m2 -> l1 = l2 /\ m1 = m2.
+Proof.
+  induction l1 as [|p l1 IH]; intros l2 m1 m2 H1 H2 S1 S2 E.
+  - destruct l2 as [|q l2]; [split; [reflexivity|exact E]|].
+    cbn [app] in E. subst m1. cbn [starts_le] in S1. inversion H2; subst. lia.
+  - destruct l2 as [|q l2].
+    + cbn [app] in E. subst m2. cbn [starts_le] in S2. inversion H1; subst. lia.
+    + cbn [app] in E. injection E as -> E. inversion H1; subst. inversion H2; subst.
+      destruct (IH l2 m1 m2) as [-> ->]; try assumption. split; reflexivity.
+Qed.
+
+Definition node_inj (n : anode) : Prop :=
+  forall d r1 n2 r2, apreN d n ++ apreNL d r1 = apreN d n2 ++ apreNL d r2 -> n = n2 /\ apreNL d r1 = apreNL d r2.
+
+Lemma forest_inj_from : forall l, Forall node_inj l -> forall d l2, apreNL d l = apreNL d l2 -> l = l2.
+Proof.
+  induction l as [|k r IH]; intros HF d l2 E.
+  - destruct l2 as [|[nm v rp at_ ch sc] r2]; [reflexivity|discriminate].
+  - destruct l2 as [|k2 r2]; [destruct k; discriminate|].
+    inversion HF as [|? ? Hk Hr]; subst. unfold apreNL in E. cbn [flat_map] in E.
+    destruct (Hk d r k2 r2 E) as [-> E2]. f_equal. apply (IH Hr d). exact E2.
+Qed.
+
+Lemma node_inj_all : forall n, node_inj n.
+Proof.
+  apply anode_ind'. intros nm v rp at_ ch sc HF d r1 [nm2 v2 rp2 at2 ch2 sc2] r2 E.
+  cbn [apreN strip] in E. cbn [app] in E. injection E as E1 E2 E3 E4 E5 E.
+  fold (apreNL (S d) ch) in E. fold (apreNL (S d) ch2) in E.
+  destruct (split_by_depth d _ _ _ _ (apreNL_depths ch (S d)) (apreNL_depths ch2 (S d))
+                           (apreNL_starts r1 d) (apreNL_starts r2 d) E) as [Ech Er].
+  split; [|exact Er]. subst. f_equal. apply (forest_inj_from ch HF (S d)). exact Ech.
+Qed.
+
+(* two forests with the same preorder (depth, node) list are equal *)
+Theorem apreNL_inj l1 l2 d : apreNL d l1 = apreNL d l2 -> l1 = l2.
+Proof.
+  apply forest_inj_from. apply Forall_forall. intros n _. apply node_inj_all.
+Qed.
